@@ -14,6 +14,7 @@ from harness import drive_testlog
 core.import_scoda()
 from scoda.elements.bar import Bar  # noqa: E402
 from scoda.elements.composition import Composition  # noqa: E402
+from scoda.elements.track import Track  # noqa: E402
 from scoda.sequences.sequence import Sequence  # noqa: E402
 from scoda.misc import util as U  # noqa: E402
 from scoda.tokenisation.notelike_tokenisation import MultiTrackLargeVocabularyNotelikeTokeniser as Tokeniser  # noqa: E402
@@ -119,6 +120,12 @@ def apply(world, op, tokinfo):
     elif op in ("bars_roundtrip", "bars_roundtrip_requantise"):
         bars = Sequence.sequences_split_bars(world, 0, quantise_note_lengths=(op == "bars_roundtrip_requantise"))
         return [Bar.to_sequence(tb) for tb in bars]
+    elif op == "bars_edit_rejoin":
+        bars = Sequence.sequences_split_bars(world, 0, quantise_note_lengths=False)
+        for tb in bars:
+            for b in tb:
+                b.sequence.cutoff(12, 12)
+        return [Track(tb).to_sequence() if i % 2 else Bar.to_sequence(tb) for i, tb in enumerate(bars)]
     elif op == "composition_roundtrip":
         return Composition.from_sequences(world).to_sequences()
     elif op == "token_roundtrip":
